@@ -1169,9 +1169,10 @@ struct Exec {
         if (stop)
             return;
 
-        Rng rng(mix3(e.sample_seed, 0xC4EC, 0));
         std::uint64_t tuples_here = 0;
         for (auto& m : mv) {
+            // sampling depends on the method only, not on catalog order
+            Rng rng(mix3(e.sample_seed, 0xC4EC, (std::uint64_t)m.slot));
             auto& mr = plan.recs[m.rec];
             int k = m.si.arity;
             // legal argument classes per virtual position
@@ -1209,6 +1210,7 @@ struct Exec {
                 }
                 ++res.st.tuples;
                 ++tuples_here;
+                [&]() {
                 Res want = dispatch(plan, L, m.defs, tuple);
                 if (n_applicable(plan, L, m.defs, tuple) >= 2)
                     ++res.st.multi_applicable;
@@ -1287,7 +1289,10 @@ struct Exec {
                     if (stop)
                         return;
                 }
+                }();
             }
+            if (stop)
+                return;
         }
         // report flags are part of the observable outcome
         log("check " + s.name + " tuples=" + std::to_string(tuples_here));
